@@ -275,8 +275,9 @@ func (g *ReducedDirectedMultiplex) Structure() [][]graph.Node {
 	return g.communities
 }
 
-// Expanded returns the next lower level of the module clustering or nil
-// if at the lowest level.
+// Expanded returns the next lower level of the module clustering. At the
+// lowest level the returned value holds a nil pointer of the receiver's
+// type; it does not compare equal to nil.
 func (g *ReducedDirectedMultiplex) Expanded() ReducedMultiplex {
 	return g.parent
 }
